@@ -1,7 +1,8 @@
 (* C15 — Loading many runs in parallel equals loading them one by one.
    Only property theorems, each closed by `exact <lemma>` and followed by Print Assumptions. *)
 From SV Require Import Base.Prelude Model.MultiRun Proof.MultiRunProof.
-From SV Require Import Model.CtxRace Model.CtxRaceWitness Proof.CtxRaceProof Proof.CtxRaceWitnessProof.
+From SV Require Import Model.CtxRace Proof.CtxRaceProof.
+From SV Require Model.CtxRacePinned Model.CtxRacePinnedWitness Proof.CtxRacePinnedProof Proof.CtxRacePinnedWitnessProof.
 From Coq Require Import Sorting.Permutation.
 
 (* multi_run (strax/utils.py): for EVERY completion order / batching of the worker pool *)
@@ -20,35 +21,52 @@ Theorem C15_multi_run_order_independent :
 Proof. exact multi_run_order_independent. Qed.
 Print Assumptions C15_multi_run_order_independent.
 
-(* The Context code shared by the workers (strax/context.py), as a labelled transition system.
-   FULL statement (refuted on the pinned tree, finding D7): whenever the workers' calls succeed one after
-   the other, they succeed under every interleaving and obtain the same plugins. *)
-Definition C15_full_ctx_race_free : Prop := ctx_race_free_stmt.
-
-(* two workers, two same-kind targets: a concrete interleaving crashes (witness wa1, by vm_compute) *)
-Theorem C15_ctx_race_refuted : ~ ctx_race_free_stmt.
-Proof. exact ctx_race_refuted. Qed.
-Print Assumptions C15_ctx_race_refuted.
-
-(* two workers, ONE target, cold plugin cache: a concrete interleaving crashes as well (witness wb1) *)
-Theorem C15_ctx_race_single_target_refuted :
-  exists sched, all_done (run_all wb1_cfg wb1_sh wb1_progs [] 400) = true /\
-                all_done (run_all wb1_cfg wb1_sh wb1_progs sched 400) = false.
-Proof. exact ctx_race_refuted_single_target. Qed.
-Print Assumptions C15_ctx_race_single_target_refuted.
-
-(* PARTIAL: if every worker's own sequential execution from the initial shared state executes no writing
-   statement and terminates normally (decidable: ro_check; true for single targets on a warm plugin cache,
-   Example wb_warm_readonly; checked on the real code by the harness), then EVERY interleaving of any
-   number of workers leaves the shared maps untouched, brings every worker to exactly the state its
-   sequential execution reaches (same statements, same plugins), and nobody crashes. *)
-Theorem C15_ctx_race_free_partial :
-  forall (c : cfgm) (sh : shared) (progs : list (list task)) (n : nat),
-  forallb (fun p => ro_check c sh (init_thread c sh p) n) progs = true ->
+(* The Context code shared by the workers (strax/context.py as repaired by /repo commit d202a14: private
+   registry copy for the temporary merge plugin, _get_plugins / key_for atomic under a lock).
+   For EVERY interleaving of any number of workers, any initial plugin cache (cold or warm), single or
+   several same-kind targets, provided the call skeletons are well formed (wf_sys: decidable; checked on the
+   skeletons extracted from the real code on every run; Examples in Proof/CtxRaceExamplesProof.v):
+   no crash transition is ever reachable, the context's registry is never modified, and when all workers
+   have run to their end each of them has finished normally with exactly the plugins its skeleton
+   determines. *)
+Theorem C15_ctx_race_free :
+  forall (c : cfgm) (sh : shared) (progs : list (list item)),
+  wf_sys c sh progs = true ->
   forall sched : list nat,
-    let fin := run_all c sh progs sched n in
-    s_sh fin = sh /\
-    s_ths fin = map (fun p => solo c sh (init_thread c sh p) n) progs /\
-    forallb th_done (s_ths fin) = true.
-Proof. exact ctx_race_free_partial. Qed.
-Print Assumptions C15_ctx_race_free_partial.
+    (forallb (fun th => negb (th_crashed th)) (s_ths (run_sched c (init_sys sh progs) sched)) = true /\
+     sh_reg (s_sh (run_sched c (init_sys sh progs) sched)) = sh_reg sh) /\
+    forall n, (max_weight c progs <= n)%nat ->
+      let fin := run_all c sh progs sched n in
+      forallb th_done (s_ths fin) = true /\
+      map th_got (s_ths fin) = map (exp_got c) progs /\
+      sh_reg (s_sh fin) = sh_reg sh.
+Proof. exact ctx_race_free. Qed.
+Print Assumptions C15_ctx_race_free.
+
+(* ... hence every interleaving ends like the sequential execution (one worker after the other) *)
+Theorem C15_ctx_race_free_sequential :
+  forall c sh progs, wf_sys c sh progs = true ->
+  forall sched n, (max_weight c progs <= n)%nat ->
+    map th_got (s_ths (run_all c sh progs sched n)) = map th_got (s_ths (run_all c sh progs [] n)) /\
+    map th_status (s_ths (run_all c sh progs sched n)) = map th_status (s_ths (run_all c sh progs [] n)).
+Proof. exact ctx_race_free_sequential. Qed.
+Print Assumptions C15_ctx_race_free_sequential.
+
+(* Documentation of finding D7 (fixed by d202a14): the statement-level transition system of the code
+   BEFORE the repair (Model/CtxRacePinned.v) is refuted by concrete two-worker interleavings, for two
+   same-kind targets (D7a) and for ONE target on a cold cache (D7b); the check replays these interleavings
+   on the real code on every run (they must not fail any more). *)
+Theorem C15_ctx_race_pinned_refuted : ~ CtxRacePinnedWitnessProof.ctx_race_free_stmt.
+Proof. exact CtxRacePinnedWitnessProof.ctx_race_refuted. Qed.
+Print Assumptions C15_ctx_race_pinned_refuted.
+
+Theorem C15_ctx_race_pinned_single_target_refuted :
+  exists sched,
+    CtxRacePinnedWitnessProof.all_done
+      (CtxRacePinned.run_all CtxRacePinnedWitness.wb1_cfg CtxRacePinnedWitness.wb1_sh
+                             CtxRacePinnedWitness.wb1_progs [] 400) = true /\
+    CtxRacePinnedWitnessProof.all_done
+      (CtxRacePinned.run_all CtxRacePinnedWitness.wb1_cfg CtxRacePinnedWitness.wb1_sh
+                             CtxRacePinnedWitness.wb1_progs sched 400) = false.
+Proof. exact CtxRacePinnedWitnessProof.ctx_race_refuted_single_target. Qed.
+Print Assumptions C15_ctx_race_pinned_single_target_refuted.
